@@ -42,8 +42,27 @@ func (vx *Vaxis) NewStyledString(s string, defaultStyle Style) *StyledString {
 				continue
 			}
 			params := strings.Split(seq, ";")
-			for _, param := range params {
-				subs := strings.Split(param, ":")
+			for i := 0; i < len(params); i += 1 {
+				subs := strings.Split(params[i], ":")
+				if len(subs) == 1 && i+1 < len(params) {
+					// Legacy form of an extended color: the
+					// color is spread over the following
+					// parameters (38;5;n or 38;2;r;g;b)
+					switch subs[0] {
+					case "38", "48", "58":
+						n := 0
+						switch params[i+1] {
+						case "5":
+							n = 2
+						case "2":
+							n = 4
+						}
+						if n > 0 && i+n < len(params) {
+							subs = append(subs, params[i+1:i+n+1]...)
+							i += n
+						}
+					}
+				}
 				switch subs[0] {
 				case "0":
 					style = defaultStyle
